@@ -10,8 +10,13 @@
    to_float(token) succeeds / raises ValueError        parse_number token = Some c / None      (see `decimal_number`)
    numpy.float64 / Python float value                  VF x
    numpy.bool_ value (np.logical_*, np.isclose, |)     VB b
-   a value of a narrower NumPy type (int8, float16:    VN   — its numeric value is NOT modelled; every operation on it
-     np.remainder(bool,bool), np.exp(bool), …)               yields VN again (NumPy raises on none of them)
+   a number that is not a boolean but whose value and  VN   — arises only from booleans used as numbers: np.remainder/fmod of
+     dtype (float64 / float16 / int8) the model does          two booleans (int8), float ufuncs on a boolean (float16), and
+     not determine                                            whatever is computed from such values
+   a numpy.bool_ whose value the model does not        VBu  (a comparison or logical operation on a VN)
+     determine
+   anything, an exception included                     VAny (builtin min/max choosing between a boolean and a non-boolean
+                                                             of undetermined order)
    libm / rounding ufuncs (exp, log, float_power, …)   oracle method a b  (recorded from the implementation by the harness)
    SyntaxError / ValueError / TypeError / RuntimeError Err ESyntax / EValue / EInternal / ERuntime
    (Err ELookup = the MODEL has no answer: an oracle miss or a method/arity combination outside the table.)
@@ -35,7 +40,7 @@ Definition mem_str (s : string) (l : list string) : bool := existsb (String.eqb 
 
 Section Values.
   Context {T : Type}.
-  Inductive value : Type := VF (x : T) | VB (b : bool) | VN.
+  Inductive value : Type := VF (x : T) | VB (b : bool) | VN | VBu | VAny.
 End Values.
 Arguments value T : clear implicits.
 
@@ -145,12 +150,13 @@ Section Formula.
   (* ================= element methods ================= *)
   (* np.logical_*: truth value = non-zero (NaN is true) *)
   Definition truth (v : value T) : bool :=
-    match v with VF x => negb (eqb x zero) | VB b => b | VN => false end.      (* VN is filtered out before `truth` is used *)
+    match v with VF x => negb (eqb x zero) | VB b => b | _ => false end.       (* used on known values only *)
   (* the float64 an operand is promoted to when the ufunc works in float64 *)
   Definition num (v : value T) : T :=
-    match v with VF x => x | VB b => b2f b | VN => nan end.                     (* VN is filtered out before `num` is used *)
-  Definition is_vb (v : value T) : bool := match v with VB _ => true | _ => false end.
-  Definition is_vn (v : value T) : bool := match v with VN => true | _ => false end.
+    match v with VF x => x | VB b => b2f b | _ => nan end.                      (* used on known values only *)
+  Definition known (v : value T) : bool := match v with VF _ | VB _ => true | _ => false end.
+  Definition boolish (v : value T) : bool := match v with VB _ | VBu => true | _ => false end.   (* dtype bool *)
+  Definition is_any (v : value T) : bool := match v with VAny => true | _ => false end.
   (* np.isclose(a, b, rtol=0, atol=0, equal_nan=True) *)
   Definition eqnan (a b : T) : bool := eqb a b || (isnan a && isnan b).
 
@@ -174,44 +180,51 @@ Section Formula.
   (* element.method(a) *)
   Definition apply1 (m : string) (a : value T) : result (value T) :=
     if negb (mem_str m known_unary) then Err ELookup
-    else if is_vn a then Ok VN
-    else if String.eqb m "np.logical_not" then Ok (VB (negb (truth a)))
+    else if is_any a then Ok VAny
+    else if String.eqb m "np.logical_not" then Ok (if known a then VB (negb (truth a)) else VBu)
+    else if boolish a then
+      (* np.negative / np.positive have no boolean loop: TypeError; the float ufuncs answer in float16 *)
+      (if String.eqb m "np.negative" || String.eqb m "np.positive" then Err EInternal else Ok VN)
     else match a with
-         | VB _ =>
-             (* np.negative / np.positive have no boolean loop: TypeError; the float ufuncs answer in float16 *)
-             if String.eqb m "np.negative" || String.eqb m "np.positive" then Err EInternal else Ok VN
          | VF x =>
              if String.eqb m "np.negative" then Ok (VF (neg x))
              else if String.eqb m "np.positive" then Ok (VF x)
              else if String.eqb m "np.fabs" then Ok (VF (nabs x))
              else if String.eqb m "np.sqrt" then Ok (VF (nsqrt x))
              else ask m x zero
-         | VN => Ok VN
+         | _ => Ok VN
          end.
 
   (* element.method(a, b) *)
   Definition apply2 (m : string) (a b : value T) : result (value T) :=
     if negb (mem_str m known_binary) then Err ELookup
-    else if is_vn a || is_vn b then Ok VN
+    else if is_any a || is_any b then Ok VAny
     else
-      let x := num a in let y := num b in let bb := is_vb a && is_vb b in
-      if String.eqb m "np.add" then Ok (if bb then VB (truth a || truth b) else VF (add x y))          (* bool + bool = logical or *)
-      else if String.eqb m "np.subtract" then (if bb then Err EInternal else Ok (VF (sub x y)))        (* bool - bool: TypeError *)
-      else if String.eqb m "np.multiply" then Ok (if bb then VB (truth a && truth b) else VF (mul x y))
-      else if String.eqb m "np.true_divide" then Ok (VF (div x y))
-      else if String.eqb m "np.float_power" then ask m x y
-      else if String.eqb m "np.logical_and" then Ok (VB (truth a && truth b))
-      else if String.eqb m "np.logical_or" then Ok (VB (truth a || truth b))
-      else if String.eqb m "Op.gt" then Ok (VF (b2f (ltb y x)))                                        (* scalar(a > b) *)
-      else if String.eqb m "Op.lt" then Ok (VF (b2f (ltb x y)))                                        (* scalar(a < b) *)
-      else if String.eqb m "Op.ge" then Ok (VB (leb y x || eqnan x y))                                 (* (a >= b) | isclose: a boolean *)
-      else if String.eqb m "Op.le" then Ok (VB (leb x y || eqnan x y))
-      else if String.eqb m "Op.eq" then Ok (VB (eqnan x y))                                            (* isclose: a boolean *)
-      else if String.eqb m "Op.neq" then Ok (VB (negb (eqnan x y)))
-      else if String.eqb m "min" then Ok (if ltb y x then b else a)                                    (* Python builtin: an operand itself *)
-      else if String.eqb m "max" then Ok (if ltb x y then b else a)
-      else if bb then Ok VN                                                                            (* remainder/fmod: int8; arctan2: float16 *)
-      else ask m x y.
+      let x := num a in let y := num b in
+      let k := known a && known b in              (* both values determined *)
+      let bb := boolish a && boolish b in         (* both of dtype bool *)
+      let vb (r : bool) : value T := if k then VB r else VBu in
+      let vf (r : T) : value T := if k then VF r else VN in
+      if String.eqb m "np.add" then Ok (if bb then vb (truth a || truth b) else vf (add x y))          (* bool + bool = logical or *)
+      else if String.eqb m "np.subtract" then (if bb then Err EInternal else Ok (vf (sub x y)))        (* bool - bool: TypeError *)
+      else if String.eqb m "np.multiply" then Ok (if bb then vb (truth a && truth b) else vf (mul x y))
+      else if String.eqb m "np.true_divide" then Ok (vf (div x y))
+      else if String.eqb m "np.float_power" then (if k then ask m x y else Ok VN)
+      else if String.eqb m "np.logical_and" then Ok (vb (truth a && truth b))
+      else if String.eqb m "np.logical_or" then Ok (vb (truth a || truth b))
+      else if String.eqb m "Op.gt" then Ok (vf (b2f (ltb y x)))                                        (* scalar(a > b) *)
+      else if String.eqb m "Op.lt" then Ok (vf (b2f (ltb x y)))                                        (* scalar(a < b) *)
+      else if String.eqb m "Op.ge" then Ok (vb (leb y x || eqnan x y))                                 (* (a >= b) | isclose: a boolean *)
+      else if String.eqb m "Op.le" then Ok (vb (leb x y || eqnan x y))
+      else if String.eqb m "Op.eq" then Ok (vb (eqnan x y))                                            (* isclose: a boolean *)
+      else if String.eqb m "Op.neq" then Ok (vb (negb (eqnan x y)))
+      else if String.eqb m "min" || String.eqb m "max" then                                            (* Python builtins: an operand itself *)
+        (if k then Ok (if String.eqb m "min" then (if ltb y x then b else a) else (if ltb x y then b else a))
+         else if bb then Ok VBu
+         else if negb (boolish a) && negb (boolish b) then Ok VN
+         else Ok VAny)
+      else if k && negb bb then ask m x y                                                              (* remainder / fmod / arctan2 *)
+      else Ok VN.                                                                                      (* two booleans: int8 / float16 *)
 
   (* ================= Function.Node.evaluate ================= *)
   Variable bigs : list string.            (* variables bound to arrays with more than one element *)
@@ -275,7 +288,7 @@ Section Membership.
 
   (* the value as a number (True = 1) *)
   Definition value_num (v : value T) : option T :=
-    match v with VF x => Some x | VB b => Some (b2f b) | VN => None end.
+    match v with VF x => Some x | VB b => Some (b2f b) | _ => None end.
 
   (* array operands: one row of variable values per element *)
   Fixpoint evaluate_rows (bigs : list string) (rows : list (list (string * T))) (t : fnode T) : result (list (value T)) :=
